@@ -5,6 +5,7 @@
 #include "nmtools/platform.hpp"
 #include "nmtools/utl/common.hpp"
 #include "nmtools/utl/array.hpp"
+#include "nmtools/verif.hpp"
 #include "nmtools/meta/bits/array/resize_bounded_size.hpp"
 
 // poor man's static_vector,
@@ -75,6 +76,11 @@ namespace nmtools::utl
             if (new_size <= Capacity) {
                 size_ = new_size;
             }
+            #ifdef NMTOOLS_VERIF
+            if (new_size > Capacity) {
+                NMTOOLS_VERIF_EVENT(1,new_size,Capacity);
+            }
+            #endif
         }
 
         constexpr static_vector& operator=(const static_vector& other)
@@ -90,6 +96,9 @@ namespace nmtools::utl
         constexpr void push_back(const T& t)
         {
             if (size_+1 > Capacity) {
+                #ifdef NMTOOLS_VERIF
+                NMTOOLS_VERIF_EVENT(1,size_+1,Capacity);
+                #endif
                 return;
             }
             resize(size_ + 1);
